@@ -334,12 +334,117 @@ class Inliner:
             return res
         return put(out)
 
+    # ---------------------------------------------------------------- helpers answering with a literal token, tested at once
+    @staticmethod
+    def _token(e):
+        """a literal answer of a helper: a constant, or a dotted name in capitals (an enum member)"""
+        if isinstance(e, ast.Constant):
+            return ('const', repr(e.value))
+        if isinstance(e, ast.Attribute) and isinstance(e.value, (ast.Name, ast.Attribute)) and e.attr.isupper():
+            return ('member', norm(e))
+        return None
+
+    def cond_helper(self, st, depth):
+        """`if self._state() is K.X: A else: B` where every return of the helper is a literal token (enum member / constant) and
+        every path of the helper ends in a return: the helper's body (guard clauses nested) with each `return t` replaced by A when
+        t is the tested token and by B otherwise.  The decision the helper encodes in a token is made where the token was made."""
+        if depth <= 0 or not isinstance(st.test, ast.Compare) or len(st.test.ops) != 1 or not isinstance(st.test.ops[0], (ast.Is, ast.IsNot, ast.Eq, ast.NotEq)):
+            return None
+        l, r = st.test.left, st.test.comparators[0]
+        if isinstance(r, ast.Call) and not isinstance(l, ast.Call):
+            l, r = r, l
+        if not isinstance(l, ast.Call) or self._token(r) is None:
+            return None
+        want = self._token(r)
+        negate = isinstance(st.test.ops[0], (ast.IsNot, ast.NotEq))
+        callee, is_method = resolve_helper(self.prog, self.f, l, self.skip)
+        if callee is None:
+            return None
+        from . import normalize as _nz
+        body = _nz._structure(copy.deepcopy(body_no_doc(callee.node)), True, False)
+        if any(isinstance(n, (ast.Yield, ast.YieldFrom, ast.FunctionDef, ast.Lambda, ast.Try, ast.With, ast.For, ast.While)) for s in body for n in ast.walk(s)):
+            return None
+        rets = [n for s in body for n in ast.walk(s) if isinstance(n, ast.Return)]
+        if not rets or any(n.value is None or self._token(n.value) is None for n in rets):
+            return None
+        if want[0] == 'member' and not any(self._token(n.value) == want for n in rets) and not all(self._token(n.value)[0] == 'member' for n in rets):
+            return None
+
+        def ends(block):
+            if not block:
+                return False
+            last = block[-1]
+            if isinstance(last, (ast.Return, ast.Raise)):
+                return True
+            if isinstance(last, ast.If):
+                return ends(last.body) and ends(last.orelse)
+            return False
+
+        def tail_only(block, tail):
+            for i_, s_ in enumerate(block):
+                last = i_ == len(block) - 1
+                if isinstance(s_, ast.Return) and not (tail and last):
+                    return False
+                if isinstance(s_, ast.If) and not (tail_only(s_.body, tail and last) and tail_only(s_.orelse, tail and last)):
+                    return False
+            return True
+        if not ends(body) or not tail_only(body, True):
+            return None
+
+        class M(ast.NodeTransformer):
+            def visit_Return(self_, n):
+                return ast.copy_location(ast.Expr(value=ast.Call(func=ast.Name(id='__ret__', ctx=ast.Load()), args=[n.value], keywords=[])), n)
+        marked = [M().visit(s) for s in body]
+        out = self.stmt_helper(ast.copy_location(ast.Expr(value=l), st), depth, forced=(callee, is_method, marked, {}))
+        if out is None:
+            return None
+        me = self
+
+        def put(stmts):
+            res = []
+            for s in stmts:
+                if isinstance(s, ast.Expr) and isinstance(s.value, ast.Call) and isinstance(s.value.func, ast.Name) and s.value.func.id == '__ret__':
+                    hit = (me._token(s.value.args[0]) == want) != negate
+                    res.extend(me.block(copy.deepcopy(st.body if hit else st.orelse), depth))
+                    continue
+                for field in ('body', 'orelse', 'finalbody'):
+                    blk = getattr(s, field, None)
+                    if isinstance(blk, list) and blk and isinstance(blk[0], ast.stmt):
+                        setattr(s, field, put(blk) or [ast.copy_location(ast.Pass(), s)])
+                res.append(s)
+            return res
+
+        def tidy(stmts):
+            # arms left empty by the replacement: `if c: pass else: X` -> `if not c: X`; an `if` with nothing in either arm goes
+            res = []
+            for s in stmts:
+                if isinstance(s, ast.If):
+                    s.body, s.orelse = tidy(s.body), tidy(s.orelse)
+                    nothing = lambda b: all(isinstance(x, ast.Pass) for x in b)      # noqa: E731
+                    if nothing(s.body) and nothing(s.orelse):
+                        if any(isinstance(n, ast.Call) for n in ast.walk(s.test)):
+                            res.append(ast.copy_location(ast.Expr(value=s.test), s))
+                        continue
+                    if nothing(s.body):
+                        t_ = s.test.operand if isinstance(s.test, ast.UnaryOp) and isinstance(s.test.op, ast.Not) else ast.copy_location(ast.UnaryOp(op=ast.Not(), operand=s.test), s.test)
+                        s.test, s.body, s.orelse = t_, s.orelse, []
+                    elif nothing(s.orelse):
+                        s.orelse = []
+                res.append(s)
+            return res
+        new = tidy(put(out))
+        for s_ in new:
+            ast.fix_missing_locations(s_)
+        return new
+
     def stmt_helper(self, st, depth, forced=None):
         """-> list of statements replacing st, or None"""
         if depth <= 0:
             return None
         if isinstance(st, ast.For) and forced is None:
             return self.gen_loop(st, depth)
+        if isinstance(st, ast.If) and forced is None:
+            return self.cond_helper(st, depth)
         call, target, is_ret = None, None, False
         if isinstance(st, ast.Expr) and isinstance(st.value, ast.Call):
             call = st.value
